@@ -1135,6 +1135,8 @@ class CParser:
             return None
         if self._peek_type() in {"PPPRAGMA", "_PRAGMA"}:
             return [self._parse_pppragma_directive()]
+        if self._peek_type() == "_STATIC_ASSERT":
+            return self._parse_static_assert()
 
         spec = self._parse_specifier_qualifier_list()
         assert "typedef" not in spec.get("storage", [])
